@@ -136,9 +136,39 @@ func (w *worker) dial(s *server, cfg *tls.Config) (ok bool, cerr error, st tls.C
 	}
 }
 
-// handshake runs a real handshake for the point against one listener and judges it against the
-// expectation computed from the option point alone.
-func (w *worker) handshake(p Point, sk string, reject bool) { w.handshakeAttempt(p, sk, reject, 0) }
+// handshake runs a real handshake for the point against one listener, judges it against the
+// expectation computed from the option point alone, and reports (minimised) violations.
+func (w *worker) handshake(p Point, sk string, reject bool) {
+	m := w.m
+	fs, classes, judged := w.handshakeAttempt(p, sk, reject, 0)
+	if judged {
+		m.Eval(1)
+	}
+	for _, k := range classes {
+		m.Class(k)
+	}
+	for _, f := range fs {
+		if !w.firstFew(f.sig) {
+			m.Violate(f.sig, f.detail, nil) // counted; the harness keeps only the first few witnesses per sig
+			continue
+		}
+		sig, detail := f.sig, f.detail
+		mp := minimisePoint(p, func(q Point) bool {
+			if reject && q.Callback == "" {
+				return false
+			}
+			qfs, _, _ := w.handshakeAttempt(q, sk, reject, 0)
+			for _, qf := range qfs {
+				if qf.sig == sig {
+					detail = qf.detail
+					return true
+				}
+			}
+			return false
+		})
+		m.Violate(sig, detail, &Case{Point: &mp, Server: sk, Reject: reject})
+	}
+}
 
 // isTimeout recognises the watchdog deadlines of either side (never an oracle input).
 func isTimeout(err error) bool {
@@ -149,14 +179,15 @@ func isTimeout(err error) bool {
 	return errors.Is(err, context.DeadlineExceeded) || errors.Is(err, os.ErrDeadlineExceeded) || (errors.As(err, &ne) && ne.Timeout())
 }
 
-func (w *worker) handshakeAttempt(p Point, sk string, reject bool, attempt int) {
-	m := w.m
+// handshakeAttempt has no side effects on the monitor: it returns findings, outcome classes and
+// whether the handshake was judged at all.
+func (w *worker) handshakeAttempt(p Point, sk string, reject bool, attempt int) (fs []finding, classes []string, judged bool) {
 	s := w.srv[sk]
 	if s == nil {
-		m.Violate("bad-replay-case", "unknown listener "+sk, nil)
-		return
+		return []finding{{"bad-replay-case", "unknown listener " + sk}}, nil, false
 	}
-	c := &Case{Point: &p, Server: sk, Reject: reject}
+	violate := func(sig, format string, a ...interface{}) { fs = append(fs, finding{sig, fmt.Sprintf(format, a...)}) }
+	class := func(k string) { classes = append(classes, k) }
 	o, h := build(p, w.mat)
 	if reject {
 		*h.verdict = errRejected
@@ -165,18 +196,18 @@ func (w *worker) handshakeAttempt(p Point, sk string, reject bool, attempt int) 
 	var err error
 	pv, stk := mon.Catch(func() { cfg, err = client.TLSClientAuth(o) })
 	if pv != nil {
-		m.Violate("panic/TLSClientAuth", fmt.Sprintf("TLSClientAuth panicked: %v\n%s", pv, stk), c)
+		violate("panic/TLSClientAuth", "TLSClientAuth panicked: %v\n%s", pv, stk)
 		return
 	}
 	if err != nil || cfg == nil {
-		m.Class("hs:no-config")
+		class("hs:no-config")
 		return
 	}
 	e := expect(p)
 	if e.idErr || e.rootsErr {
 		// a config was returned although an error was owed: that is the inspection's finding; the
 		// table defines no handshake outcome for such a point
-		m.Class("hs:config-despite-owed-error")
+		class("hs:config-despite-owed-error")
 		return
 	}
 	roots := expectedPool(p, w.mat)
@@ -213,15 +244,14 @@ func (w *worker) handshakeAttempt(p Point, sk string, reject bool, attempt int) 
 		watchdog = true
 	}
 	if watchdog && attempt == 0 {
-		m.Class("hs-watchdog-retried")
-		w.handshakeAttempt(p, sk, reject, 1)
-		return
+		fs, classes, judged = w.handshakeAttempt(p, sk, reject, 1)
+		return fs, append(classes, "hs-watchdog-retried"), judged
 	}
 	if watchdog {
-		m.Class("hs-watchdog")
+		class("hs-watchdog")
 		return
 	}
-	m.Eval(1)
+	judged = true
 	cbCalled := *h.cbCalls - before
 	switch {
 	case ok && !wantOK:
@@ -229,23 +259,23 @@ func (w *worker) handshakeAttempt(p Point, sk string, reject bool, attempt int) 
 		if why == "legacy-version" {
 			sig = "hs-negotiated-below-tls12"
 		}
-		m.Violate(sig, fmt.Sprintf("handshake with listener %s succeeded (version %#x) although it must fail: %s; mode %s, roots %s, name %q, chain error: %v, full error: %v",
-			sk, st.Version, why, mode, e.rootsClass, name, chainErr, fullErr), c)
+		violate(sig, "handshake with listener %s succeeded (version %#x) although it must fail: %s; mode %s, roots %s, name %q, chain error: %v, full error: %v",
+			sk, st.Version, why, mode, e.rootsClass, name, chainErr, fullErr)
 	case !ok && wantOK:
-		m.Violate("hs-refused-valid-server/"+mode+"/"+e.rootsClass, fmt.Sprintf("handshake with listener %s failed with %q although the server certificate verifies against the supplied roots (%s) and name %q (server side: %v)",
-			sk, cerr, e.rootsClass, name, rec.err), c)
+		violate("hs-refused-valid-server/"+mode+"/"+e.rootsKind, "handshake with listener %s failed with %q although the server certificate verifies against the supplied roots (%s) and name %q (server side: %v)",
+			sk, cerr, e.rootsClass, name, rec.err)
 	case !ok:
-		m.Class("hs:" + sk + ":refused:" + why)
+		class("hs:" + sk + ":refused:" + why)
 	default:
-		m.Class("hs:" + sk + ":ok:" + mode)
+		class("hs:" + sk + ":ok:" + mode)
 		if st.Version < tls.VersionTLS12 {
-			m.Violate("hs-negotiated-below-tls12", fmt.Sprintf("negotiated version %#x", st.Version), c)
+			violate("hs-negotiated-below-tls12", "negotiated version %#x", st.Version)
 		}
 		if p.Callback != "" && cbCalled == 0 {
-			m.Violate("hs-callback-not-invoked", "handshake succeeded without consulting the supplied VerifyPeerCertificate callback", c)
+			violate("hs-callback-not-invoked", "handshake succeeded without consulting the supplied VerifyPeerCertificate callback")
 		}
 		if rec.err != nil {
-			m.Class("hs:server-side-error-after-client-ok")
+			class("hs:server-side-error-after-client-ok")
 			break
 		}
 		var want *x509.Certificate
@@ -257,15 +287,16 @@ func (w *worker) handshakeAttempt(p Point, sk string, reject bool, attempt int) 
 		}
 		switch {
 		case want == nil && len(rec.peer) > 0:
-			m.Violate("hs-client-cert-fabricated/"+e.idClass, "the client presented a certificate although none was supplied", c)
+			violate("hs-client-cert-fabricated/"+e.idKind, "the client presented a certificate although none was supplied")
 		case want != nil && len(rec.peer) == 0:
-			m.Violate("hs-client-cert-not-presented/"+e.idClass, "the client presented no certificate although a usable pair was supplied and the server requested one", c)
+			violate("hs-client-cert-not-presented/"+e.idKind, "the client presented no certificate although a usable pair was supplied and the server requested one")
 		case want != nil && !bytes.Equal(rec.peer[0], want.Raw):
-			m.Violate("hs-client-cert-different/"+e.idClass, "the client presented a certificate that is not the supplied one", c)
+			violate("hs-client-cert-different/"+e.idKind, "the client presented a certificate that is not the supplied one")
 		case want != nil:
-			m.Class("hs:client-cert-presented:" + e.idWant)
+			class("hs:client-cert-presented:" + e.idWant)
 		default:
-			m.Class("hs:no-client-cert")
+			class("hs:no-client-cert")
 		}
 	}
+	return
 }
